@@ -26,7 +26,7 @@ def run_tdvp(repo, which, d, steps, dtype='complex', capped=False, normalize=0):
     return l2.explore(repo, body, max_paths=5000)
 
 
-def normalisation_currency(res):
+def normalisation_currency(res, nz=None):
     """with normalize > 0 every returned state k >= 1 is scaled by a norm that was computed during step k (from the state that step produced), not by one that an
     earlier state was already scaled with.  Returns (violations, undecided): lists of step numbers."""
     def cores(t):
@@ -34,12 +34,16 @@ def normalisation_currency(res):
 
     def is_norm(a):
         return a.ndim == 0 and a.origin in ('norm', 'amax')
-    bad, unknown = [], []
+    bad, unknown, wrong = [], [], []
     prev = A.ancestors(cores(res[0]))
     for k in range(1, len(res)):
         anc = A.ancestors(cores(res[k]))
         fresh = {i: a for i, a in anc.items() if i not in prev}
-        if any(is_norm(a) for a in fresh.values()):
+        kinds = {a.origin for a in fresh.values() if is_norm(a)}
+        if kinds:
+            # the requested norm: p = 1 is a maximum of column sums, p = 2 the Euclidean norm of the orthonormalised train
+            if nz is not None and not (('amax' in kinds) if nz == 1 else ('norm' in kinds and 'amax' not in kinds)):
+                wrong.append(k)
             prev = anc
             continue
         # no norm was computed since the previous state: is the state scaled at all in this step, and with what?
@@ -50,6 +54,8 @@ def normalisation_currency(res):
                     stale_scaled = True
         (bad if stale_scaled else unknown).append(k)
         prev = anc
+    if nz is not None:
+        return bad, unknown, wrong
     return bad, unknown
 
 
@@ -87,7 +93,7 @@ def check(repo, tier):
              'evolutions), with exponents of the form -1j*t')
     run.rule('D5', 'trajectory: initial value first (by identity), one distinct new object per step satisfying the class invariant; cores 1..d-1 orthonormal factors after a step')
     run.rule('D6', 'Krylov: Lanczos recurrences in normal form (conjugated bra in alpha, w - alpha v - beta v_prev, symmetric tridiagonal stores, sum_j c_j v_j)')
-    run.rule('D8', 'normalize > 0: the factor applied to the state of step k is the reciprocal of a norm computed from the state produced by step k')
+    run.rule('D8', 'normalize = p > 0: the factor applied to the state of step k is the reciprocal of the p-norm computed from the state produced by step k')
     run.rule('D7', 'frame: operator and initial state not modified (Layer 1)')
     run.trusted = ['leg semantics of the NumPy/SciPy transfer functions', 'the contraction rule', 'expm_multiply(c*M, v) denotes exp(c M) v']
     orders = (1, 2, 3, 4) if tier == 'thorough' else (1, 2, 3)
@@ -105,7 +111,7 @@ def check(repo, tier):
     grid.append(('tdvp2site', 3, 2, False))
     for d in ((2, 3) if tier == 'quick' else (2, 3, 4)):
         grid.append(('tdvp', d, 1, True))
-    grid += [('tdvp1site', 2, 2, False, 2), ('tdvp2site', 2, 2, False, 2), ('tdvp2site', 2, 3, False, 1)]
+    grid += [('tdvp1site', 2, 2, False, 2), ('tdvp1site', 2, 2, False, 1), ('tdvp2site', 2, 2, False, 2), ('tdvp2site', 2, 3, False, 1)]
     for which, d, steps, capped, *nz in grid:
         nz = nz[0] if nz else 0
         entry = f'{ODE}.{which}'
@@ -132,10 +138,13 @@ def check(repo, tier):
                 l2rules.invariant_obligation(run, 'C11', 'D5', repo, sc, t, entry, scen, 'returned state')
             # D8 normalisation
             if nz:
-                nb, nu = normalisation_currency(res)
-                if nu and not nb:
+                nb, nu, nw = normalisation_currency(res, nz)
+                if nu and not nb and not nw:
                     raise AnalysisError(f'{scen}: no norm computation is recognised in step(s) {nu} although normalize={nz}')
-                run.oblige('D8', (entry, scen, tuple(ch)), not nb)
+                run.oblige('D8', (entry, scen, tuple(ch)), not nb and not nw)
+                if nw:
+                    run.add(Finding('C11', 'D8', fn.where, 'kind of norm', f'{pscen}: the state(s) of step(s) {nw} are not divided by the {"Manhattan (p=1)" if nz == 1 else "Euclidean (p=2)"} norm that normalize={nz} asks for',
+                                    fn.file, fn.node.lineno))
                 if nb:
                     run.add(Finding('C11', 'D8', fn.where, 'normalisation factor', f'{pscen}: the state(s) of step(s) {nb} are scaled by the reciprocal of a norm that was computed before that step '
                                     f'(an earlier state was already scaled with it): after the first step the state is rescaled again and again instead of being normalised', fn.file, fn.node.lineno))
